@@ -82,9 +82,15 @@ def ensure_build(targets=()):
         fcntl.flock(lk, fcntl.LOCK_EX)
         if not os.path.exists(os.path.join(BUILD, "build.ninja")):
             sh(["cmake", "-S", REPO, "-B", BUILD] + CMAKE_ARGS, check=True, timeout=600)
-        r = sh(["ninja", "-C", BUILD] + list(targets), timeout=3000)
+        # the first build of a directory is complete (harnesses and generated code link against libraries that are not
+        # dependencies of the targets a check names); later calls only bring the named targets up to date
+        stamp = os.path.join(BUILD, ".vf_full_build_done")
+        full = not os.path.exists(stamp) and not os.environ.get("VP_PARTIAL_BUILD")
+        r = sh(["ninja", "-C", BUILD] + ([] if full else list(targets)), timeout=5400)
         if r.returncode != 0:
             raise Broken("build of %s failed:\n%s" % (REPO, r.stdout[-6000:]))
+        if full:
+            open(stamp, "w").write("ok\n")
 
 
 class TlcResult:
